@@ -10,7 +10,7 @@ add("C02", "exploration",
     "DESIGN.md 4/C02")
 add("C03", "fault_enumeration",
     "fault enumeration at runtime: every FS-call boundary and every 512-aligned tear of recorded executions is materialised as a crash image and recovered by the real Open; oracle = reference state before/after the call in flight",
-    "Each generated history runs on a call-logging in-memory file system; every crash point of the stated process-crash model inside the history (all boundaries between FS calls, all sector-aligned tears of every data write) is turned into an image that the real recovery code opens; the complete read-back must equal the reference state before or after the API call in flight. Exhaustive per history, sampled over histories.",
+    "Each generated history runs on a call-logging in-memory file system; every crash point of the stated process-crash model inside the history (all boundaries between FS calls, all sector-aligned tears of every data write) is turned into an image that the real recovery code opens; the complete read-back must equal the reference state before or after the API call in flight. Exhaustive per history, sampled over histories. Every other history also has a few Put/Delete calls hit by one failing record append (whole call, injected): the failed call's own key is undetermined until an acknowledged call settles it, everything acknowledged later is judged at every later crash point.",
     "Fault model exactly as stated in the property (completed calls applied, in-flight data write torn at 512-aligned offsets, atomic directory operations). Trusts CrashFS (cross-validated against fs.OS in C17) and the reference map.",
     "DESIGN.md 4/C03")
 add("C06", "fault_enumeration",
@@ -65,7 +65,7 @@ add("C17", "exploration",
     "DESIGN.md 4/C17")
 add("C18", "exploration",
     "runtime monitor: golden corpus written by the pinned build opened by the current code on four file systems (backward) + independent decoder validating every segment byte and the log replay at checkpoints of generated histories (forward)",
-    "Backward: 24 committed directories written by the pinned version (clean, copied while open, torn) must open on OS/OSMMap/Mem/CrashFS with the recorded contents, with/without recovery as appropriate, with a consistent index, and survive a further session. Forward: at every checkpoint of generated histories the independent decoder must accept every segment file up to its last byte, names must be %05d-%d.psg with sequence ids ordering creation, index files must carry the documented header, and the decoder's replay in sequence order must equal the reference.",
+    "Backward: 24 committed directories written by the pinned version (clean, copied while open, torn) must open on OS/OSMMap/Mem/CrashFS with the recorded contents, with/without recovery as appropriate, with a consistent index, and survive a further session; each is also opened with its segment sequence numbers raised past 16, 32 and 63 bits. Forward: at every checkpoint of generated histories the independent decoder must accept every segment file up to its last byte, names must be %05d-%d.psg with sequence ids ordering creation, index files must carry the documented header, and the decoder's replay in sequence order must equal the reference.",
     "Corpus generated once from commit 0e387fd + hook commits (no fix commits) by tools in this tree (pvh gengolden). The decoder defines the documented format.",
     "DESIGN.md 4/C18")
 add("C11", "exploration",
